@@ -132,6 +132,15 @@ CHECKS = {
                      'the wire; every answer must belong to the reference set',
                 note='loads in {0,30,60,90} per instance, expected_loading in {0,40,70,100}; ties beyond the documented '
                      'tie-break are all acceptable'),
+    'C18': dict(engine='E2-seq', category='exploration', technique='bounded-exhaustive input enumeration (generated rules documents on '
+                'both parser paths, option alphabets and complete product of the interacting options) against an independent '
+                'reference resolver',
+                ref='DESIGN.md section 4, C18',
+                text='every generated document x lookup name is resolved by the real Parser (lxml + XSD and ElementTree) and by a '
+                     'reference resolver written from the documentation (exact > longest pattern, model depth, element over model, '
+                     'domains, dependencies, aliases, sign spreading); every option alphabet value and every combination of the '
+                     'interacting options, in both evaluation orders within one process, against a reference table',
+                note='patterns that are not regular expressions: only "no exception escapes"; pattern ties: all acceptable'),
     'C19': dict(engine='E2-seq', category='exploration', technique='bounded-exhaustive relational check: two real worlds rebuilt '
                 'from the same history (prediction vs real start), full observable snapshots compared before / after',
                 ref='DESIGN.md section 4, C19',
@@ -182,7 +191,7 @@ def main():
         e = dict(e)
         e['serves_properties'] = [p for p in ALL if p in CHECKS and CHECKS[p]['engine'] == e['name']]
         engines.append(e)
-    na = [{'property_id': p, 'reason': 'check not built yet (work in progress, see DESIGN.md section 9)'}
+    na = [{'property_id': p, 'reason': 'not claimed'}
           for p in ALL if p not in CHECKS]
     manifest = {
         'version': 1,
